@@ -139,6 +139,10 @@ struct CaseCtx {
   }
 };
 
+inline const char* bucket(uint64_t v) {
+  return v == 0 ? "0" : v < 10 ? "1+" : v < 100 ? "10+" : v < 1000 ? "100+" : "1000+";
+}
+
 inline std::string hexp(const void* p) {
   char b[32];
   snprintf(b, sizeof b, "0x%llx", (unsigned long long)(uintptr_t)p);
